@@ -17,7 +17,7 @@ ReqDom == [
               "ct-form", "ct-form-charset", "ct-multipart", "ct-json", "hop-lookalike"},
   h2     |-> {"none", "custom", "custom2", "cookie", "hop-te", "hop-keep-alive", "if-none-match", "origin"},
   body   |-> {"none", "len0", "len1", "len-small", "len-4095", "len-4096", "len-4097", "len-32768", "len-32769", "len-100k",
-              "chunked-small", "chunked-multi", "chunked-1byte-first", "big"} ]
+              "chunked-small", "chunked-multi", "chunked-1byte-first", "chunked-64k-plus-1", "chunked-big", "big"} ]
 
 RespDom == [
   status  |-> {200, 201, 202, 204, 206, 207, 301, 302, 303, 304, 307, 308, 400, 401, 403, 404, 405, 409, 410, 418, 429, 451, 500, 501, 502, 503, 504, 599},
@@ -28,7 +28,7 @@ RespDom == [
   h2      |-> {"none", "custom", "setcookie2", "hop-keep-alive", "content-encoding", "x-frame-options", "hop-lookalike"},
   framing |-> {"length", "chunked", "close"},
   body    |-> {"empty", "len1", "one1-then-rest", "single-small", "single-4096", "multi", "len-32769", "len-100k", "big"},
-  declared   |-> {0, 1, 2, 3},
+  declared   |-> {0, 1, 2, 3, 9},     \* (nine: more names in one Trailer value than a small fixed limit would hold)
   undeclared |-> {0, 1, 2},
   interim |-> {"none", "103", "103x2", "100", "102"} ]
 
